@@ -131,6 +131,12 @@ func toIdentRef(bases []*meta.Identity, v interface{}) (val.IdentRef, error) {
 	if ref == nil {
 		return empty, fmt.Errorf("could not find identity ref for %T:'%s'", v, x)
 	}
+	for _, base := range bases {
+		if ref == base {
+			// RFC7950 Sec 9.10.2 the value is an identity derived from the base, not the base
+			return empty, fmt.Errorf("identity '%s' is the base of the identityref, not derived from it", x)
+		}
+	}
 	if module != "" {
 		// module name as in JSON or its prefix as in XML
 		owner := meta.RootModule(ref)
